@@ -374,18 +374,21 @@ def liftFault {α} : M α → R α
   | .ok a => .ok a
   | .error f => .error (.fault f)
 
-/-- `strconv.Atoi` on a string of any length (64-bit `int`): sign, at least one digit, range check. -/
-def atoi64 (s : List Nat) : Option Int :=
-  let (neg, ds) := match s with
-    | 43 :: r => (false, r)
-    | 45 :: r => (true, r)
-    | _ => (false, s)
+/-- the digits part of `strconv.Atoi` (64-bit `int`): at least one digit, digits only, range check. -/
+def atoi64Digits (neg : Bool) (ds : List Nat) : Option Int :=
   if ds.isEmpty then none
   else match C13.decVal ds 0 with
     | none => none
     | some v =>
       if neg then (if v ≤ 9223372036854775808 then some (- Int.ofNat v) else none)
       else (if v ≤ 9223372036854775807 then some (Int.ofNat v) else none)
+
+/-- `strconv.Atoi` on a string of any length: optional sign, then `atoi64Digits`. -/
+def atoi64 (s : List Nat) : Option Int :=
+  match s with
+  | 43 :: r => atoi64Digits false r
+  | 45 :: r => atoi64Digits true r
+  | _ => atoi64Digits false s
 
 /-- `strings.Split(s, "@")`. -/
 def splitAt64 : List Nat → List (List Nat)
